@@ -65,6 +65,41 @@ def rwp : R String := do
                (if out.quat then "1" else "0"), toString out.parts.length, toString out.logw.length]
               ++ intsStr out.parts ++ intsStr par ++ out.logw.map floatStr))
 
+/-- `seqcfg kind ratio seed ncalls` — the object of a `seq` case (harness `op_seq`): built by the constructor overload
+    `kind % 100` selects, handed over (copy / move construction / assignment) before the first call or, for
+    `kind ≥ 100`, after it, serving `ncalls` calls.  Output: `ok prior ratio(hex) seed drawn` of the object in use at
+    the end — the configuration every one of its calls must exhibit. -/
+def seqcfg : R String := do
+  let kind ← nat
+  let ratio ← flt
+  let seed ← nat
+  let ncalls ← nat
+  done
+  let k := kind % 100
+  let late := decide (kind ≥ 100)
+  let other : Float := if ratio == 0.5 then 0.25 else 0.5
+  let ctor : Option (RsCtor Float) :=
+    if k == 0 || k == 2 || k == 3 || k == 4 || k == 5 then some (.rs seed)
+    else if k == 11 then some .rsDefault
+    else if k == 1 || k == 6 || k == 7 then some (.rwp3 ratio seed)
+    else if k == 9 || k == 12 then some (.rwp2 ratio)
+    else if k == 10 || k == 13 then some .rwp1
+    else none
+  let hand : List (RsOp Float) :=
+    if k == 2 then [.copyConstruct]
+    else if k == 4 || k == 6 || k == 12 then [.moveConstruct]
+    else if k == 3 then [.moveAssign ((RsCtor.rs 12345).build)]
+    else if k == 5 then [.copyAssign ((RsCtor.rs 777).build)]
+    else if k == 7 || k == 13 then [.moveAssign ((RsCtor.rwp3 other 999).build)]
+    else []
+  match ctor with
+  | none => pure "bad-kind"
+  | some c =>
+    let calls := fun n => List.replicate n (RsOp.call (α := Float))
+    let ops := if late then calls (min 1 ncalls) ++ hand ++ calls (ncalls - 1) else hand ++ calls ncalls
+    let o := c.build.run ops
+    pure (join ["ok", (if o.prior then "1" else "0"), floatStr o.ratio, toString o.seed, toString o.drawn])
+
 /-! ### C06 -/
 
 def cmdOf : Nat → List SkipCmd
@@ -197,6 +232,7 @@ def handle (op : String) (args : List String) : Option String :=
   | "rsf" => some ((run rsf args).getD "bad-args")
   | "rsw" => some ((run rsw args).getD "bad-args")
   | "rwp" => some ((run rwp args).getD "bad-args")
+  | "seqcfg" => some ((run seqcfg args).getD "bad-args")
   | "sis" => some ((run sis args).getD "bad-args")
   | "sis2" => some ((run sis2 args).getD "bad-args")
   | "glik" => some ((run glik args).getD "bad-args")
